@@ -1443,6 +1443,14 @@ class HplFunctionCall(HplExpression):
 
     def __attrs_post_init__(self):
         object.__setattr__(self, 'data_type', self.function.result)
+        # narrow the arguments to the parameter types of the overload they match
+        types = tuple(arg.data_type for arg in self.arguments)
+        matches = [sig for sig in self.function.overloads if sig.accepts(types)]
+        if len(matches) == 1:
+            sig: FunctionSignature = matches[0]
+            params = sig.parameters + (sig.variadic,) * (len(types) - sig.arity)
+            args = tuple(arg.cast(t) for arg, t in zip(self.arguments, params))
+            object.__setattr__(self, 'arguments', args)
 
     @property
     def is_function_call(self) -> bool:
